@@ -875,7 +875,8 @@ int mlw_encode( int16_t *inbuf, int inbuf_size, uint8_t **outbuf, int verbose) {
     // Analyse input data to find palette re-programming points
     int n_restarts;
     int *palette_restart_pos = NULL;
-    n_restarts = search_palette_sections( inbuf, inbuf_size, &palette_restart_pos);
+    // An empty input has no section: the stream is the end of stream marker and its padding
+    n_restarts = inbuf_size > 0 ? search_palette_sections( inbuf, inbuf_size, &palette_restart_pos) : 0;
 
     // Compress each section (using a single palette) separately
     int bitpos=0;
